@@ -138,6 +138,15 @@ def alloc(ctx):
         for (c, op, desc) in TA.sinks_in(body):
             n_sinks += 1
             srcs, sl = TA.sources(body, [op])
+            sh = sl.has_call(r'^std::iter::Iterator::size_hint$')
+            upper = sh and any(any(isinstance(e, dict) and e.get('f') == 1 for e in pl['p']) and pl['l'] in [x.dest['l'] for x in sh]
+                               for pl in sl.places)
+            if upper:
+                ctx.bad(body.key, 'sink(%s)<-size_hint-upper' % desc,
+                        'allocation size of %s (line %d) is taken from the UPPER bound of an iterator\'s size_hint: for an iterator '
+                        'driven by a count read from untrusted input (a Result-collected `(0..n).map(..)`) the upper bound is the '
+                        'attacker-chosen count' % (c.full[:80], c.ln), c.where())
+                continue
             if srcs:
                 n_tainted_sinks += 1
                 ctx.bad(body.key, 'sink(%s)<-input' % desc,
